@@ -39,6 +39,9 @@ def _sig(stop, minn, maxn):
     return "stop=%s range=(%d,%d)" % (bool(stop), minn, maxn)
 
 
+SHARED = {}
+
+
 def corpus_trace(tid, rng):
     from mlinsights.mlmodel import TraceableCountVectorizer, TraceableTfidfVectorizer
     from sklearn.feature_extraction.text import CountVectorizer, TfidfVectorizer
@@ -64,12 +67,24 @@ def corpus_trace(tid, rng):
         sv = CountVectorizer(**kw).fit(corpus)
     except ValueError:
         return None          # empty vocabulary / pruning removed everything: scikit-learn refuses, nothing to compare
-    tv = TraceableCountVectorizer(**kw).fit(corpus)
+    if tid % 2:
+        tv = TraceableCountVectorizer(**kw).fit(corpus)
+    else:
+        # one long-lived instance, reconfigured and refitted from trace to trace (options that live in the analyzer
+        # included): what an earlier configuration built must not survive
+        full = dict(dict(min_df=1, max_df=1.0, max_features=None), **kw)
+        tv = SHARED.setdefault("count", TraceableCountVectorizer())
+        tv.set_params(**full).fit(corpus)
+        t["sig"] += " reconfigured"
     t["tvocab"] = sorted(([dict(gram=enc_gram(g, code), col=int(c)) for g, c in tv.vocabulary_.items()]), key=lambda e: e["col"])
     t["svocab"] = sorted(([dict(gram=dec_str(s, code), col=int(c)) for s, c in sv.vocabulary_.items()]), key=lambda e: e["col"])
     t["tmat"] = [[int(v) for v in row] for row in tv.transform(corpus).toarray()]
     t["smat"] = [[int(v) for v in row] for row in sv.transform(corpus).toarray()]
-    a = TraceableTfidfVectorizer(**kw).fit(corpus).transform(corpus).toarray()
+    if tid % 2:
+        a = TraceableTfidfVectorizer(**kw).fit(corpus).transform(corpus).toarray()
+    else:
+        full = dict(dict(min_df=1, max_df=1.0, max_features=None), **kw)
+        a = SHARED.setdefault("tfidf", TraceableTfidfVectorizer()).set_params(**full).fit(corpus).transform(corpus).toarray()
     b = TfidfVectorizer(**kw).fit(corpus).transform(corpus).toarray()
     t["tfidf_equal"] = bool(a.shape == b.shape and numpy.array_equal(a, b))
     return t
